@@ -63,6 +63,48 @@ def sh(cmd, timeout=None, cwd=None, mem_gb=8, inp=None):
         return -999, (e.stdout or b'').decode('utf8', 'replace'), 'TIMEOUT', time.time() - t0
 
 
+def sh_race(cmds, timeout=None, mem_gb=8):
+    """run several commands concurrently; first one to exit with output wins, the others are killed.
+    returns (index, rc, stdout, stderr, seconds)"""
+    import tempfile, signal
+    t0 = time.time()
+    procs = []
+    for cmd in cmds:
+        pre = 'ulimit -v %d; ' % (mem_gb * 1024 * 1024)
+        fo = tempfile.TemporaryFile()
+        fe = tempfile.TemporaryFile()
+        p = subprocess.Popen(['bash', '-c', pre + 'exec ' + ' '.join(shq(c) for c in cmd)], stdout=fo, stderr=fe, start_new_session=True)
+        procs.append((p, fo, fe))
+    winner = None
+    while True:
+        for i, (p, fo, fe) in enumerate(procs):
+            rc = p.poll()
+            if rc is not None and winner is None:
+                fo.seek(0)
+                out = fo.read().decode('utf8', 'replace')
+                # a crashed/killed solver (rc not in 0,10) without results does not win
+                if rc in (0, 10) or all(q.poll() is not None for q, _, _ in procs):
+                    winner = (i, rc, out)
+        if winner is not None:
+            break
+        if timeout and time.time() - t0 > timeout:
+            break
+        time.sleep(0.05)
+    for p, fo, fe in procs:
+        if p.poll() is None:
+            try:
+                os.killpg(p.pid, signal.SIGKILL)
+            except Exception:
+                pass
+            p.wait()
+    if winner is None:
+        return -1, -999, '', 'TIMEOUT', time.time() - t0
+    i, rc, out = winner
+    procs[i][2].seek(0)
+    err = procs[i][2].read().decode('utf8', 'replace')
+    return i, rc, out, err, time.time() - t0
+
+
 def shq(s):
     if re.fullmatch(r'[-A-Za-z0-9_./=,+:@%]+', s):
         return s
@@ -282,19 +324,57 @@ def gen_inputs(view, rnd, n):
 
 
 def tcheck(builds, workdir, seed, n_inputs, log):
-    """compile generated C (prefix T_) and the real drivers natively; compare bits. returns stats dict"""
+    """compile generated C (prefix T_) and the real drivers natively; compare bits. returns stats dict.
+    One forked worker per build (the parsed modules are inherited)."""
     stats = {'shims': 0, 'inputs': 0, 'compared': 0, 'skipped_poison': 0, 'mismatches': 0, 'compilers': ['g++ -O2']}
-    for b in builds:
-        if b.mode == 'ubsan':
-            continue
+    todo = [b for b in builds if b.mode != 'ubsan']
+    global _TCHECK_BUILDS
+    _TCHECK_BUILDS = {b.tag: b for b in todo}
+    logs = []
+    if todo:
+        import multiprocessing
+        ctx = multiprocessing.get_context('fork')
+        with ProcessPoolExecutor(max_workers=min(NPROC, len(todo)), mp_context=ctx) as ex:
+            for st, lg, err in ex.map(_tcheck_one, [(b.tag, workdir, seed, n_inputs) for b in todo]):
+                if err:
+                    raise Infra(err)
+                for k in ('shims', 'inputs', 'compared', 'skipped_poison', 'mismatches'):
+                    stats[k] += st[k]
+                if st.get('never_compared'):
+                    stats.setdefault('never_compared', []).extend(st['never_compared'])
+                for l in lg:
+                    log(l)
+    return stats
+
+
+_TCHECK_BUILDS = {}
+
+
+def _tcheck_one(arg):
+    tag, workdir, seed, n_inputs = arg
+    lg = []
+    try:
+        st = _tcheck_build(_TCHECK_BUILDS[tag], workdir, seed, n_inputs, lg.append)
+        return st, lg, None
+    except Infra as e:
+        return None, lg, str(e)
+    except Exception:
+        return None, lg, 'T-check worker exception: ' + traceback.format_exc()[-1500:]
+
+
+def _tcheck_build(b, workdir, seed, n_inputs, log):
+    stats = {'shims': 0, 'inputs': 0, 'compared': 0, 'skipped_poison': 0, 'mismatches': 0}
+    for b in [b]:
         rnd = random.Random(seed)
         names = [n for n in b.driver.order if (b.prefix + n) in b.mod.funcs or n in b.mod.funcs]
+        t_tr = time.time()
         try:
             text, info = ll2c.translate(b.mod, roots=names, prefix='T_', poison_flags=True)
         except llir.Unsupported as e:
             raise Infra('ll2c: unsupported construct in %s: %s' % (b.tag, e))
         gen = os.path.join(workdir, b.tag + '_tgen.c')
         open(gen, 'w').write(text)
+        log('T-check %s: translated %d shims, %d lines, %.1fs' % (b.tag, len(names), text.count('\n'), time.time() - t_tr))
         # main
         L = ['#include "ll2c_rt.h"', '#include <stdio.h>', '#include <string.h>',
              'int ll2c_poison_seen, ll2c_trap_seen; const char *ll2c_trap_msg; jmp_buf ll2c_trap_jmp;',
@@ -304,13 +384,15 @@ def tcheck(builds, workdir, seed, n_inputs, log):
             ps = [t for t, _ in s['ins']] + [t + '*' for t, _, _ in s['outs']]
             L.append('extern %s %s(%s);' % (s['ret'], n, ', '.join(ps) or 'void'))
             L.append('extern %s T_%s(%s);' % (s['ret'], n, ', '.join(ps) or 'void'))
-        L.append('static int eqf(float a, float b){ u32 x=ll2c_f32_bits(a), y=ll2c_f32_bits(b); return x==y || (a!=a && b!=b); }')
-        L.append('static int eqd(double a, double b){ u64 x=ll2c_f64_bits(a), y=ll2c_f64_bits(b); return x==y || (a!=a && b!=b); }')
+        nsz = any('nsz' in t for t in info.get('trusted', []))
+        zs = ' || (a == 0 && b == 0)' if nsz else ''
+        L.append('static int eqf(float a, float b){ u32 x=ll2c_f32_bits(a), y=ll2c_f32_bits(b); return x==y || (a!=a && b!=b)%s; }' % zs)
+        L.append('static int eqd(double a, double b){ u64 x=ll2c_f64_bits(a), y=ll2c_f64_bits(b); return x==y || (a!=a && b!=b)%s; }' % zs)
         L.append('int main(void){')
         for n in names:
             s = b.driver.shims[n].view_sig()
             stats['shims'] += 1
-            cols = [gen_inputs(t, rnd, n_inputs) for t, _ in s['ins']]
+            cols = [([rnd.randint(0, 1) for _ in range(n_inputs)] if cppt == 'bool' else gen_inputs(t, rnd, n_inputs)) for (t, _), cppt in zip(s['ins'], s['cpp_ins'])]
             k = n_inputs if s['ins'] else 1
             stats['inputs'] += k
             L.append('{ /* %s */ unsigned long cmp0_%s = n_cmp;' % (n, n))
@@ -369,11 +451,12 @@ def tcheck(builds, workdir, seed, n_inputs, log):
         cxxflags = ['-O2', '-DNDEBUG', '-std=c++17', '-ffp-contract=off', '-fno-strict-aliasing', '-w'] + b.flags
         cmds = [
             ['g++'] + cxxflags + ['-I' + REPO, '-c', b.src, '-o', realo],
-            ['gcc', '-O1', '-ffp-contract=off', '-fno-strict-aliasing', '-w', '-I' + RT, '-c', gen, '-o', gen + '.o'],
-            ['gcc', '-O1', '-w', '-I' + RT, '-c', mainc, '-o', mainc + '.o'],
+            ['gcc', '-O0', '-ffp-contract=off', '-fno-strict-aliasing', '-w', '-I' + RT, '-c', gen, '-o', gen + '.o'],
+            ['gcc', '-O0', '-w', '-I' + RT, '-c', mainc, '-o', mainc + '.o'],
         ]
         for c in cmds:
             rc, so, se, dt = sh(c, timeout=900, mem_gb=16)
+            log('T-check %s: %s %.1fs' % (b.tag, ' '.join(c[:2]), dt))
             if rc != 0:
                 raise Infra('T-check build failed (%s): %s' % (' '.join(c[:3]), se[-2000:]))
         rc, so, se, dt = sh(['g++', realo, gen + '.o', mainc + '.o', '-lm', '-o', exe], timeout=300)
@@ -439,7 +522,7 @@ def harness_text(c, sig, gen_text, extra_requires=(), ensures_override=None, can
 
 
 BACKEND_FLAGS = {
-    'sat': [], 'cadical': ['--sat-solver', 'cadical'], 'z3': ['--z3'], 'cvc5': ['--cvc5'],
+    'sat': ['--sat-solver', 'cadical'], 'minisat': [], 'cadical': ['--sat-solver', 'cadical'], 'z3': ['--z3'], 'cvc5': ['--cvc5'],
     'kissat': ['--external-sat-solver', 'kissat'],
 }
 
@@ -488,9 +571,18 @@ def run_contract_job(job):
             return out
         lines = {int(k): v for k, v in job['lines'].items()}
         for be in job['backends']:
-            cmd = ['cbmc', base + '.i.gb', '--json-ui', '--unwind', str(job['unwind']), '--unwinding-assertions',
-                   '--no-standard-checks'] + BACKEND_FLAGS[be] + job.get('cbmc_flags', [])
-            rc, so, se, dt = sh(cmd, timeout=job['timeout'], mem_gb=job.get('mem_gb', 8))
+            common = ['cbmc', base + '.i.gb', '--json-ui', '--unwind', str(job['unwind']), '--unwinding-assertions',
+                      '--no-standard-checks'] + job.get('cbmc_flags', [])
+            if be == 'sat':
+                # portfolio: cadical and minisat race (either can be pathologically slow on instances the other solves at once)
+                variants = ['cadical', 'minisat']
+                wi, rc, so, se, dt = sh_race([common + BACKEND_FLAGS[v] for v in variants], timeout=job['timeout'], mem_gb=job.get('mem_gb', 8))
+                be_used = 'sat:' + (variants[wi] if wi >= 0 else 'none')
+                cmd = common + (BACKEND_FLAGS[variants[wi]] if wi >= 0 else [])
+            else:
+                cmd = common + BACKEND_FLAGS[be]
+                rc, so, se, dt = sh(cmd, timeout=job['timeout'], mem_gb=job.get('mem_gb', 8))
+                be_used = be
             out['log'] += '$ %s\n rc=%d %.1fs\n' % (' '.join(cmd), rc, dt)
             if rc == -999:
                 out['status'] = 'timeout'
@@ -532,7 +624,8 @@ def run_contract_job(job):
                 break
             out['clauses'] = clauses
             out['safety'] = safety
-            out['backend'] = be
+            out['backend'] = be_used
+            out['backend_flags'] = BACKEND_FLAGS[be_used.split(':')[-1]] if be_used.split(':')[-1] in BACKEND_FLAGS else []
             out['status'] = 'done'
             out['nprops'] = len(r['props'])
             break
@@ -542,7 +635,7 @@ def run_contract_job(job):
             if failed or failed_safety:
                 # rerun with trace to get inputs (first failing property)
                 cmd = ['cbmc', base + '.i.gb', '--json-ui', '--trace', '--unwind', str(job['unwind']), '--unwinding-assertions',
-                       '--no-standard-checks'] + BACKEND_FLAGS[out['backend']] + job.get('cbmc_flags', [])
+                       '--no-standard-checks'] + out.get('backend_flags', []) + job.get('cbmc_flags', [])
                 rc, so, se, dt = sh(cmd, timeout=job['timeout'] * 2, mem_gb=job.get('mem_gb', 8))
                 r = parse_cbmc_json(so) if rc != -999 else None
                 if r:
